@@ -89,7 +89,7 @@ def finding_of(theory, pre, kind, L, R):
     return None
 
 
-# one reproducer per recorded finding and theory: these queries are EXPECTED to fail while the finding is open
+# one reproducer per recorded finding and theory: while a finding is open its query is EXPECTED to fail; once repaired (all three are, see known_findings.json 'fixed') they are ordinary queries of both tiers
 REPRO = {
     'C12-bounds-two-variables': {'idl': ([(1, 2, -1)], 5, (-1, 1, -2, 1), (0, 0, 1, 1)), 'rdl': ([(1, 2, 1), (2, 1, 0)], 5, (1, -1, 1, 2), (0, 0, 1, 1))},
     'C12-distance-of-expressions': {'idl': ([(1, 2, 1), (2, 1, 0)], 6, (2, 0, -2, 1), (0, 2, 0, 1)), 'rdl': ([(1, 2, 1), (2, 1, 0)], 6, (2, 0, -2, 1), (0, 2, 0, 1))},
@@ -109,13 +109,16 @@ def jobs(tier):
         per = {}
         for s in all_sc:
             key = (s[1], PRES.index(s[0]))
-            if per.get(key, 0) < 2:
+            if per.get(key, 0) < (4 if s[1] >= 5 else 2):   # bounds / distance / equates: more shapes (three repaired defects lived there)
                 per[key] = per.get(key, 0) + 1; sel.append(s)
         bs = boundary_scenarios()
         scs = sel + [b for i, b in enumerate(bs) if i % 2 == 0]
+        for fid in sorted(REPRO):   # the reproducers of the (repaired) bounds / distance / equates defects are always part of the claim
+            for th in ('idl', 'rdl'):
+                if REPRO[fid][th] not in scs: scs.append(REPRO[fid][th])
         k = 5
     else:
-        scs = [x for i, x in enumerate(all_sc) if i % 2 == seed % 2] + boundary_scenarios()   # half of the systematic product per run (the seed picks which half) keeps the tier under an hour
+        scs = [x for i, x in enumerate(all_sc) if i % 2 == seed % 2] + boundary_scenarios() + [REPRO[f][t] for f in sorted(REPRO) for t in ('idl', 'rdl')]   # half of the systematic product per run (the seed picks which half) keeps the tier under an hour
         k = 6
     js = []
     opn = open_findings('C12')
